@@ -160,14 +160,18 @@ def dynLookup (env : VEnv) (anchor : String) : List NodeId → Res (Option NodeI
           | some a => if a.dynamic then .ok (some a.schema) else dynLookup env anchor rest
           | none => dynLookup env anchor rest
 
+/-- `$dynamicRef` is an unknown keyword under draft-07 (`st.rs.draft`), and resolveRefs leaves it unresolved in a
+    draft-07 document (a loaded document may declare a draft of its own): in both cases it is ignored.  (The
+    record keeps the initial target whichever way the reference behaves: `dynamicRefResolved()` is
+    `resolvedDynamicRef.isSome` here.) -/
 def bDynamicRef (env : VEnv) (rec : Rec) (stack : List NodeId) (n : Node) (info : Option Info) (inst : GoVal)
     (anns : Anns) : Res Anns :=
-  if n.dynamicRef != "" then
+  if n.dynamicRef != "" && env.draft == .d2020 then
     match info with
     | none => .panic
     | some i =>
       match i.resolvedDynamicRef with
-      | none => .panic              -- "DynamicRef not resolved properly"
+      | none => .ok anns            -- not resolved: a draft-07 document under a 2020-12 root
       | some initial =>
         if i.dynamicRefAnchor == "" then mustValid rec stack inst initial anns
         else
